@@ -209,7 +209,11 @@ void parallel_for_dynamicImpl(
   auto worker = [start, end, &index, f, chunkSize, numChunks, exitAction](auto& s) {
     auto recurseInfo = detail::PerPoolPerThreadInfo::parForRecurse();
     while (true) {
-      auto cur = index.fetch_add(1, std::memory_order_relaxed);
+      // acq_rel, not relaxed: the worker that draws the last exit index runs exitAction, which on
+      // the no-wait path invokes the granularity tail with the first state and frees the index. All
+      // fetch_adds form one release sequence, so that worker's acquire orders every other worker's
+      // last body (and its use of the states) before the tail.
+      auto cur = index.fetch_add(1, std::memory_order_acq_rel);
       if (cur >= numChunks) {
         exitAction(cur);
         break;
